@@ -174,8 +174,8 @@ CHECKS["C08"] = dict(
          "NC_GLOBAL/DODS_EXTRA flattening, globals) are compared with "
          "pydap on generated datasets, on (variable tree, attribute dict) pairs with opaque leaves and on reference-rendered "
          "foreign DAS; a real client (open_url on an in-process handler) is compared with the served attributes to six digits.",
-    note=TB + "Numbers are DAS tokens in the model: '%.6g' and ast.literal_eval are outside it (oracle only). The placement theorem covers served DAS without NC_GLOBAL / "
-              "DODS_EXTRA containers (their flattening and foreign flat-id layouts are compared, not proved). ASCII; attribute names are identifiers.",
+    note=TB + "Numbers are DAS tokens in the model: '%.6g' and ast.literal_eval are outside it (oracle only). The placement theorems cover served DAS (incl. NC_GLOBAL / "
+              "DODS_EXTRA flattening); foreign flat-id layouts and name collisions are compared, not proved. ASCII; attribute names are identifiers.",
     technique="Coq proof (character-level parser inverts the printer: induction over the nested attribute tree, regexp alternatives as total functions; placement: reverse-walk over a nested dictionary with path lookup / removal lemmas) + vm_compute correspondence incl. the placement algorithm + end-to-end client oracle",
     design="7/C08")
 
